@@ -147,13 +147,17 @@ func applyCmdEnvTags(s reflect.Value, fielder getFielder) error {
 							return fmt.Errorf("programming error -- missing delimiter for slice field: %s", fieldType.Name)
 						}
 
-						rawValue, ok := value.Index(0).Interface().(string)
-						if !ok {
-							return fmt.Errorf("programming error -- slice field must be a string: %s", fieldType.Name)
+						// the parser may already have split an environment variable on the
+						// delimiter, and a flag may be given more than once; use every element,
+						// splitting each one on the delimiter
+						var values []string
+						for j := 0; j < value.Len(); j++ {
+							rawValue, ok := value.Index(j).Interface().(string)
+							if !ok {
+								return fmt.Errorf("programming error -- slice field must be a string: %s", fieldType.Name)
+							}
+							values = append(values, strings.Split(rawValue, delimiter)...)
 						}
-
-						// split the value on the delimiter
-						values := strings.Split(rawValue, delimiter)
 						// create a new slice of the same type as the field
 						slice := reflect.MakeSlice(field.Type(), len(values), len(values))
 						// iterate over the values and set them
